@@ -10,10 +10,13 @@ EXTENDS LifecycleCore, Json
 CONSTANTS
   NTr,             \* number of trainers (1 or 2)
   TType1, TType2,  \* "stdp" | "mstdpet"
-  Share,           \* cells share a "neuron" group or a "conn"ection
+  Share,           \* cells share a "neuron" group or a "conn"ection, or live in two "layers"
   SameHp,          \* both cells are registered with the same hyper-parameters (=> trace monitors alias)
   D14,             \* model del_observed / del_monitor as found (deregisters shared objects)
   AMNames,         \* indices of the monitor names offered to add_monitor / del_monitor
+  Uniques,         \* values of `unique` offered to add_monitor (subset of BOOLEAN)
+  Vars,            \* constructor / tags variants offered to add_monitor (subset of {"std", "alt"})
+  Extras,          \* offer add_cell, update and the per-cell listings
   WithDrop,        \* offer dropping the last reference to a trainer
   Prune,           \* do not explore beyond states in which an eligibility trainer was redirected
   MaxDepth
@@ -25,7 +28,7 @@ TTypes == IF NTr = 1 THEN <<TType1>> ELSE <<TType1, TType2>>
 
 Init0 ==
   [cfg |-> [ttype |-> TTypes, share |-> Share, samehp |-> SameHp, d14 |-> D14],
-   ltr |-> TRUE, clk |-> 0,
+   ltr |-> <<TRUE, TRUE>>, clk |-> 0,
    tr |-> [t \in 1..NTr |-> [alive |-> TRUE, training |-> TRUE, cells |-> [c \in 1..NC |-> FALSE]]],
    pool |-> [t \in 1..NTr |-> [c \in 1..NC |-> [m \in 1..6 |-> 0]]],
    ph |-> <<>>,
@@ -35,16 +38,20 @@ Offered(tt) == IF tt = "mstdpet" THEN AMNames \cap {5, 6} ELSE AMNames \cap (1..
 
 Ops(s) ==
   {o \in
-     {[a |-> "step"]} \cup {[a |-> "ltrain", b |-> b] : b \in BOOLEAN}
+     {[a |-> "step", l |-> l] : l \in 1..2} \cup {[a |-> "ltrain", l |-> l, b |-> b] : l \in 1..2, b \in BOOLEAN}
      \cup {[a |-> "register_cell", t |-> t, c |-> c] : t \in 1..NTr, c \in 1..NC}
      \cup {[a |-> "del_cell", t |-> t, c |-> c] : t \in 1..NTr, c \in 1..NC}
-     \cup UNION {{[a |-> "add_monitor", t |-> t, c |-> c, m |-> m] : c \in 1..NC, m \in Offered(TTypes[t])} : t \in 1..NTr}
+     \cup UNION {{[a |-> "add_monitor", t |-> t, c |-> c, m |-> m, u |-> u, var |-> v] :
+                     c \in 1..NC, m \in Offered(TTypes[t]), u \in Uniques, v \in Vars} : t \in 1..NTr}
+     \cup {[a |-> "add_cell", t |-> t, c |-> c] : t \in (IF Extras THEN 1..NTr ELSE {}), c \in 1..NC}
+     \cup {[a |-> "update", t |-> t] : t \in (IF Extras THEN 1..NTr ELSE {})}
+     \cup {[a |-> "list", t |-> t, what |-> "of", c |-> c] : t \in (IF Extras THEN 1..NTr ELSE {}), c \in 1..NC}
      \cup UNION {{[a |-> "del_monitor", t |-> t, c |-> c, m |-> m] : c \in 1..NC, m \in Offered(TTypes[t])} : t \in 1..NTr}
      \cup {[a |-> "ttrain", t |-> t, b |-> b] : t \in 1..NTr, b \in BOOLEAN}
      \cup {[a |-> "tstep", t |-> t] : t \in 1..NTr}
      \cup {[a |-> "clear", t |-> t] : t \in 1..NTr}
      \cup {[a |-> "drop", t |-> t] : t \in (IF WithDrop THEN 1..NTr ELSE {})}
-     \cup {[a |-> "list", t |-> t, what |-> w] : t \in 1..NTr, w \in {"named", "monitors", "cells"}}
+     \cup {[a |-> "list", t |-> t, what |-> w, c |-> 1] : t \in 1..NTr, w \in {"named", "monitors", "cells"}}
    : Applicable(s, o)}
 
 Init == st = Init0 /\ abs = AInit(Init0)
@@ -59,7 +66,7 @@ Bounded == TLCGet("level") <= MaxDepth /\ (Prune => ~Redirected(st))
 (* Properties                                                              *)
 (***************************************************************************)
 TypeOK ==
-  /\ st.ltr \in BOOLEAN /\ st.clk >= 0
+  /\ st.ltr \in [1..2 -> BOOLEAN] /\ st.clk >= 0
   /\ Canonical(st)
   /\ \A i \in DOMAIN st.ph : st.ph[i].reg \in BOOLEAN
   /\ \A t \in 1..NTr : ~st.tr[t].alive => IdsOf(st, t) = {}
